@@ -107,6 +107,9 @@ def build(cfg):
             continue
         b.results.append(("ok", [int(r[0]), int(r[1]), int(r[2])], sb.memory_map.addr_width))
         b.subs.append((i, sb))
+        if len(b.subs) % 2 == 1:
+            # looking at a half-built decoder must not change what it becomes
+            list(dec.bus.memory_map.windows()); list(dec.bus.memory_map.window_patterns())
     return b
 
 
